@@ -4,6 +4,7 @@ import collections
 import hashlib
 import itertools
 import random
+import re
 import string
 import time
 
@@ -271,6 +272,32 @@ class ClsInterp:
         self.texts.append(text)
         return exp
 
+    def relative_union(self, ar, br, r, am, bm):
+        """real-vs-real laws of `|` over *all* of Unicode, including the code points only the shorthands add:
+        A | B matches exactly what A or B match (negated classes: what both match), and B | A denotes the same set"""
+        if not (isinstance(ar, Pregex) and isinstance(br, Pregex) and isinstance(r, Pregex)):
+            return
+        ev = self.events[-1]
+        if ev['verdict'] != 'set-equal' or not (isinstance(am, CV) and isinstance(bm, CV)):
+            return
+        ta, tb, tr = str(ar), str(br), str(r)
+        if not (C.uses_shorthand(ta) or C.uses_shorthand(tb) or C.uses_shorthand(tr)):
+            return
+        try:
+            sr = C.scan(tr)
+        except re.error:
+            return
+        self.stats['union-order-checks'] += 1
+        # (what `|` does to code points that only a shorthand adds is left unspecified by the property - e.g.
+        #  '/' | AnyDigit() merges into the range [/-9] and drops \d - so only order independence is judged there)
+        try:
+            rev = br | ar
+        except Exception as e:
+            self.viol(ev, 'class:order-dependent', '%r | %r gives a class but the swapped union raises %s' % (ta, tb, type(e).__name__))
+            return
+        if isinstance(rev, Pregex) and C.scan(str(rev)) != sr:
+            self.viol(ev, 'class:order-dependent', '%r | %r = %r but swapped = %r: different sets' % (ta, tb, tr, str(rev)))
+
     def viol(self, ev, symptom, detail):
         ev['verdict'] = 'viol'
         ev['symptom'] = symptom
@@ -355,7 +382,9 @@ class ClsInterp:
         if o in ('or', 'sub'):
             (ar, am), (br, bm) = self.ev(t['x'][0]), self.ev(t['x'][1])
             if o == 'or':
-                return self.call('or', 'algebra', lambda: ar | br, lambda: m_or(am, bm), [(ar, am), (br, bm)])
+                r, m = self.call('or', 'algebra', lambda: ar | br, lambda: m_or(am, bm), [(ar, am), (br, bm)])
+                self.relative_union(ar, br, r, am, bm)
+                return r, m
             return self.call('sub', 'algebra', lambda: ar - br, lambda: m_sub(am, bm), [(ar, am), (br, bm)])
         if o == 'inv':
             ar, am = self.ev(t['x'][0])
@@ -372,7 +401,7 @@ def props_of(ev):
         P |= {'C03', own}
     elif sym.startswith('class:invalid'):
         P |= {'C03', own}
-    elif sym.startswith('class:wrong-set'):
+    elif sym.startswith('class:wrong-set') or sym.startswith('class:order-dependent'):
         P.add(own)
     elif base in ('missing-exception', 'unexpected-exception', 'wrong-exception'):
         P.add(own)
